@@ -3,6 +3,7 @@ import H264.PpsExact
 import H264.SliceExact
 import H264.SpsRangesAll
 import H264.History
+import H264.SmallProofC16
 /-! # C16 — Accepted parameter sets and slice headers satisfy documented range invariants
 
 Every statement has the form "the parser returned success on *some* input ⇒ the result is within the bounds", for
@@ -118,5 +119,16 @@ theorem reachable_slice_params (ops : List History.Op) (hdr : Slice.NalHdr) (s s
     ∃ pps sps, Ctx.get (History.run ops).pps pid = some pps ∧ pps.ppsId = pid ∧ pps.spsId = sid ∧
       Ctx.get (History.run ops).sps sid = some sps ∧ sps.spsId = sid ∧ History.SpsGood sps ∧ History.PpsGood pps :=
   History.reachable_slice_params ops hdr s s' h sid pid hok
+
+/-- **model = real code across every range check of a minimal SPS / PPS, by proof**: one coded field at a time swept over 0…40
+(SPS: id, log2_max_frame_num_minus4, pic_order_cnt_type, max_num_ref_frames, width, height, both bit depths) resp. over the
+values around its bounds (PPS: pps_id up to 276, sps_id, both default reference counts, pic_init_qp / pic_init_qs −41…40,
+chroma_qp_index_offset), everything else valid: the model parser accepts exactly what the real parser accepted in this run's
+graph and returns the same field value — so the bounds proved for the model (`SpsRanges`, `pps_accepted_in_range`) are, on
+these 902 inputs, bounds of the running code -/
+theorem model_bounds_reproduce_code_sps : (List.range 328).map SmallProof.spsFieldRow = Generated.spsFieldRows :=
+  SmallProof.spsFields_model_eq_code
+theorem model_bounds_reproduce_code_pps : (List.range 574).map SmallProof.ppsFieldRow = Generated.ppsFieldRows :=
+  SmallProof.ppsFields_model_eq_code
 
 end C16
